@@ -49,8 +49,9 @@ def mk_token(eng, clsname, module="types", **attrs):
     cls = eng.resolve_global(eng.load_module(module), clsname)
     o = Obj(cls, name=clsname.lower())
     o.attrs.update(attrs)
-    o.attrs.setdefault("ctx_start", Obj("Ctx", name=clsname.lower() + ".ctx_start"))
-    o.attrs.setdefault("ctx_end", Obj("Ctx", name=clsname.lower() + ".ctx_end"))
+    ccls = eng.resolve_global(eng.load_module("context"), "Context")
+    o.attrs.setdefault("ctx_start", Obj(ccls, dict(filename="f.mac", code=Opaque("code"), pos=0), name=clsname.lower() + ".ctx_start"))
+    o.attrs.setdefault("ctx_end", Obj(ccls, dict(filename="f.mac", code=Opaque("code"), pos=0), name=clsname.lower() + ".ctx_end"))
     return o
 
 
